@@ -53,6 +53,15 @@ CLAIMED = {
             'Trusted: CPython ast, engine/tokwire.py, engine/fold.py, engine/wire.py (gate evaluator). Definition equality after a text round trip, the content of fgd.lzma and block packing are not claimed.',
             'static: token-level wire extraction + folded tables + finite-domain line-token emission of the text writers',
             'DESIGN.md section 3, C16'),
+    'C20': ('other',
+            'Static rules on cmdseq.py, choreo.py, sndscript.py, vmt.py, particles.py, smd.py: token-level wire extraction of cmdseq and of every choreo parse_binary/export_binary pair '
+            '(per event type and relative-tag arm, sub-records paired by class, signedness differences discharged by an interval analysis of the packed expression), scenes.image header/table/summary '
+            'per version, ordering and per-entry linkage; choreo text keyword agreement (every line keyword written has an implemented reader branch), quoted-slot escape lint for choreo and soundscript writers, '
+            'soundscript range values quoted, VMT escape configuration agreement and bare-word quoting, particle section names / iterable materialisation / attribute spelling / name exclusion, '
+            'SMD same-line field separation, per-line field counts and deterministic bone numbering; enum name tables complete and inverse.',
+            'Trusted: CPython ast, engine/tokwire.py, engine/fold.py. Value equality (float formatting, quantisation) and lzma payloads are not claimed.',
+            'static: token-level wire extraction + interval analysis for signedness + keyword/quoting lints over the text writers',
+            'DESIGN.md section 3, C20'),
     'C13': ('other',
             'Static rules on vpk.py: CFG dominance of the writable-mode guard over every mutation of the file table / storage fields / archive files; '
             'wire agreement of the directory reader and writer (header and entry formats, entry slot -> FileInfo field linkage through the constructor, '
